@@ -232,13 +232,29 @@ func GenerateGRPC(r *lp.Rng, index int) *Design {
 		d.Services = append(d.Services, s)
 	}
 	if index >= 1000 {
-		// (built on its own, index 1000+) an attribute of an alias type with an Enum of its own, carried in gRPC metadata
-		d.Types = append(d.Types, &TypeDef{Name: "Slug", Kind: "type", Att: &Att{Type: &Type{Prim: "String"}, Val: &Validation{Pattern: "^[a-z]+$"}}})
-		d.Services = append(d.Services, &Service{Name: "aliasmd", GRPC: true, Methods: []*Method{{Name: "tagged", GRPC: &GRPCMap{Metadata: []Mapped{{Attr: "slug"}}},
-			Payload: &Att{Type: &Type{IsObject: true, Object: []*Field{
-				{Name: "slug", Att: tag(&Att{Type: &Type{Ref: "Slug"}, Val: &Validation{Enum: []any{"abc", "xyz"}}}, 1)},
-				{Name: "note", Att: tag(&Att{Type: &Type{Prim: "String"}}, 2)}}}},
-			Result: &Att{Type: &Type{Prim: "String"}}}}})
+		// (built on its own, index 1000+) attributes of alias types (with validations of their own) carried in gRPC metadata:
+		// optional, required and defaulted; a String and an Int alias
+		d.Types = append(d.Types,
+			&TypeDef{Name: "Slug", Kind: "type", Att: &Att{Type: &Type{Prim: "String"}, Val: &Validation{Pattern: "^[a-z]+$"}}},
+			&TypeDef{Name: "Level", Kind: "type", Att: &Att{Type: &Type{Prim: "Int"}, Val: &Validation{Min: fp(1), Max: fp(9)}}})
+		slug := func() *Att {
+			return &Att{Type: &Type{Ref: "Slug"}, Val: &Validation{Enum: []any{"abc", "xyz"}}}
+		}
+		method := func(name string, required []string, slugAtt, levelAtt *Att) *Method {
+			return &Method{Name: name, GRPC: &GRPCMap{Metadata: []Mapped{{Attr: "slug"}, {Attr: "level"}}},
+				Payload: &Att{Type: &Type{IsObject: true, Object: []*Field{
+					{Name: "slug", Att: tag(slugAtt, 1)},
+					{Name: "note", Att: tag(&Att{Type: &Type{Prim: "String"}}, 2)},
+					{Name: "level", Att: tag(levelAtt, 3)}}}, Required: required},
+				Result: &Att{Type: &Type{Prim: "String"}}}
+		}
+		defSlug := slug()
+		defSlug.Default, defSlug.HasDef = "abc", true
+		d.Services = append(d.Services, &Service{Name: "aliasmd", GRPC: true, Methods: []*Method{
+			method("tagged", nil, slug(), &Att{Type: &Type{Ref: "Level"}}),
+			method("tagged_req", []string{"slug", "level"}, slug(), &Att{Type: &Type{Ref: "Level"}}),
+			method("tagged_def", nil, defSlug, &Att{Type: &Type{Ref: "Level"}, Default: 3, HasDef: true}),
+		}})
 	}
 	return d
 }
